@@ -33,6 +33,8 @@ import (
 //   request-roundtrip   method name x protocol version x every column sequence
 //                       (0..2, thorough 0..3 columns over 9 Arrow types x values)
 //                       WriteRequest -> ReadRequest / FindProtocolVersion
+//   reframe-history     frame -> ReadRequest -> re-frame the returned batch -> ReadRequest,
+//                       over (method, version) x (method, version) x first-frame kind
 //   token-finders       every concatenation of <=2 (thorough <=3) IPC streams
 //                       drawn from 12 token-bearing shapes; Find* vs a trivial walk
 //   unary-roundtrip     result payload x envelope schema; WriteUnaryResult -> ReadUnaryResult
@@ -792,6 +794,84 @@ func TestVerif_C01(t *testing.T) {
 			x.Failf("C01:FindStreamTokens:phantom-token", "request without tokens yielded %q / %q", st, ct)
 		}
 		x.Outcome("m=%q pv=%q schema=%s rows=%d rest=%d", req.Method, gotPV, vfSchemaString(req.Batch.Schema()), req.Batch.NumRows(), rd.Len())
+	})
+
+	// ---- reframe-history: frame, read, re-frame the batch ReadRequest returned
+	// (it still carries the first frame's custom metadata), read again. The
+	// second frame must carry exactly what the SECOND framing stamped.
+	reBatches := [][2][]int{{{}, {}}, {{0, 1}, {0, 0}}, {{8, 6}, {0, 1}}}
+	venum.Explore(t, venum.Cfg{Name: "reframe-history", Shardable: true}, func(x *venum.X) {
+		m1 := methods[x.Choose(len(methods), "method1")]
+		v1 := pvs[x.Choose(len(pvs), "version1")]
+		hand := x.Bool("first-frame-by-hand")
+		m2 := methods[x.Choose(len(methods), "method2")]
+		v2 := pvs[x.Choose(len(pvs), "version2")]
+		bi := x.Choose(len(reBatches), "batch")
+		batch := vfC01Batch(reBatches[bi][0], reBatches[bi][1])
+		defer batch.Release()
+		x.Note("frame1=(%q,%q,hand=%v) frame2=(%q,%q) batch#%d", m1, v1, hand, m2, v2, bi)
+		var f1 []byte
+		if hand {
+			// what a client puts on the wire: version stamp plus the other framework keys
+			kv := []string{MetaRequestID, "rid-1", MetaLogLevel, "DEBUG", MetaStreamState, "S-old==", MetaCallState, "C-old==", MetaTraceparent, "00-aa-bb-01"}
+			if v1 != "" {
+				kv = append(kv, MetaProtocolVersion, v1)
+			}
+			f1 = vfRequest(m1, batch, kv...)
+		} else {
+			var buf bytes.Buffer
+			if err := WriteRequest(&buf, m1, batch, v1); err != nil {
+				x.Failf("C01:WriteRequest:error-on-valid-input", "first frame: %v", err)
+				return
+			}
+			f1 = buf.Bytes()
+		}
+		var req1, req2 *Request
+		var err error
+		if pan := vfC01Guard(func() { req1, err = ReadRequest(bytes.NewReader(f1)) }); pan != nil || err != nil || req1 == nil {
+			x.Failf("C01:reframe:first-frame-rejected", "ReadRequest(first frame): err=%v panic=%v", err, pan)
+			return
+		}
+		defer req1.Batch.Release()
+		var buf2 bytes.Buffer
+		if pan := vfC01Guard(func() { err = WriteRequest(&buf2, m2, req1.Batch, v2) }); pan != nil || err != nil {
+			x.Failf("C01:reframe:WriteRequest-failed", "re-framing the batch from ReadRequest: err=%v panic=%v", err, pan)
+			return
+		}
+		f2 := buf2.Bytes()
+		if pan := vfC01Guard(func() { req2, err = ReadRequest(bytes.NewReader(f2)) }); pan != nil || err != nil || req2 == nil {
+			x.Failf("C01:reframe:second-frame-rejected", "ReadRequest(second frame): err=%v panic=%v", err, pan)
+			return
+		}
+		defer req2.Batch.Release()
+		vcls := "version2-empty"
+		if v2 != "" {
+			vcls = "version2-set"
+		}
+		if req2.Method != m2 {
+			x.Failf("C01:reframe:method", "re-framed as %q, read back %q (first frame %q)", m2, req2.Method, m1)
+		}
+		if req2.Version != ProtocolVersion {
+			x.Failf("C01:reframe:request_version", "request version %q", req2.Version)
+		}
+		got, has := req2.Metadata[MetaProtocolVersion]
+		if got != v2 || has != (v2 != "") {
+			x.Failf("C01:reframe:protocol_version:"+vcls, "second framing stamped %q (first frame had %q): read back %q present=%v", v2, v1, got, has)
+		}
+		if !req2.Batch.Schema().Equal(batch.Schema()) || !array.RecordEqual(batch, req2.Batch) {
+			x.Failf("C01:reframe:values", "values changed over two framings: %v vs %v", batch, req2.Batch)
+		}
+		if fpv := FindProtocolVersion(f2); fpv != v2 {
+			x.Failf("C01:reframe:FindProtocolVersion:"+vcls, "second framing stamped %q (first frame had %q), FindProtocolVersion found %q", v2, v1, fpv)
+		}
+		st, ct := FindStreamTokens(f2)
+		if len(st) != 0 || len(ct) != 0 || len(FindStateToken(f2)) != 0 || len(FindCallStateToken(f2)) != 0 {
+			x.Failf("C01:reframe:phantom-token", "WriteRequest stamps no tokens, yet the second frame yields %q / %q (left over from the first frame)", st, ct)
+		}
+		// other framework keys of the first frame: carried or not is recorded, not judged
+		_, rid := req2.Metadata[MetaRequestID]
+		_, lvl := req2.Metadata[MetaLogLevel]
+		x.Outcome("m=%q pv=%q/%v keys=%d rid=%v lvl=%v rows=%d", req2.Method, got, has, len(req2.Metadata), rid, lvl, req2.Batch.NumRows())
 	})
 
 	// ---- token-finders
